@@ -24,7 +24,13 @@ Record cli_case := mkCli {
   cc_sql : o_sql;
   cc_status : o_status;
   cc_log : o_log;
-  cc_rev : o_rev }.
+  cc_rev : o_rev;
+  (* K-baseline: the schema the runtime renders each stored migration against (harness_cli/hcli render: the macro's
+     loop with the real apply_action), and the baseline the pending plan is rendered against.  The binary's own
+     baselines are visible only through the statements it prints; checks/clirun.py compares those statements with
+     the ones built from exactly these baselines. *)
+  cc_log_baselines : option (list schema);
+  cc_sql_baseline : option schema }.
 
 Definition aobs_eq_dec (x y : aobs) : {x = y} + {x <> y}.
 Proof. decide equality; [apply (list_eq_dec string_dec) | apply string_dec]. Defined.
@@ -95,7 +101,16 @@ Definition check_cli (c : cli_case) : list nat :=
   ++ (if sql_matches (model_sql P) (cc_sql c) then [] else [2%nat])
   ++ (if dec_b o_status_eq_dec (model_status P) (cc_status c) then [] else [3%nat])
   ++ (if log_matches (model_log P) (cc_log c) then [] else [4%nat])
-  ++ (if dec_b o_rev_eq_dec (model_rev c) (cc_rev c) then [] else [5%nat]).
+  ++ (if dec_b o_rev_eq_dec (model_rev c) (cc_rev c) then [] else [5%nat])
+  ++ (match cc_log_baselines c, cmd_log P with
+      | Some bs, Ok (LogEntries l) => if dec_b (list_eq_dec schema_eq_dec) (map le_baseline l) bs then [] else [6%nat]
+      | Some bs, Ok LogNone => if is_nil bs then [] else [6%nat]
+      | _, _ => []            (* log rejects the history (the macro's loader does not validate): nothing to compare *)
+      end)
+  ++ (match cc_sql_baseline c, cmd_sql P with
+      | Some b, Ok (SqlRender _ _ b') => if dec_b schema_eq_dec b b' then [] else [7%nat]
+      | _, _ => []
+      end).
 
 Fixpoint cli_mismatches_from (i : nat) (cs : list cli_case) : list (nat * list nat) :=
   match cs with
